@@ -10,7 +10,7 @@ subprocess.run(['git', '-C', '/repo', 'worktree', 'add', '--detach', REPO], capt
 import atexit
 atexit.register(lambda: subprocess.run(['git', '-C', '/repo', 'worktree', 'remove', '--force', REPO], capture_output=True))
 for d in sys.argv[1:]:
-    d = d.rstrip('/')
+    d = os.path.abspath(d.rstrip('/'))
     pf = os.path.join(d, 'patch.diff')
     if subprocess.run(['git', '-C', REPO, 'status', '--porcelain', '--untracked-files=no'], capture_output=True, text=True).stdout.strip():
         print('REPO DIRTY, abort'); sys.exit(3)
